@@ -270,10 +270,10 @@ SentInFlightA ==
 FailedNeitherA ==
   LET env == last'.env IN
   /\ \A r \in TickErrs(tick') :
-        /\ Strip(r) \notin Delivered(dl')
+        /\ (Strip(r) \in Delivered(dl') => Strip(r) \in TickSent(tick'))   \* (an identical request may have been sent by the command or the algo of the same step)
         /\ r.unrec = (r.ex \notin 0..(NEX - 1) \/ env.link[r.ex + 1] \in {"closed", "missing"})
         /\ (r.unrec => tick'.terminal /\ tick'.errs > 0)
-  /\ \A r \in TickRefs(tick') : r \notin Delivered(dl')
+  /\ \A r \in TickRefs(tick') : r \in Delivered(dl') => r \in TickSent(tick')
   /\ (tick'.errs > 0 => tick'.terminal)
 \* C03: no in-flight marker appears without a delivery
 NoPhantomInFlightA ==
